@@ -22,7 +22,7 @@ from ..common import exc_kind
 from ..engine import Prop
 
 FILE_SHAPES = [None, ["T"], ["M"], ["T", "T"], ["M", "T"]]  # T = file exists, M = missing
-FAULT_POINTS = ["before-open", "after-open", "mid-write", "at-replace"]
+FAULT_POINTS = ["before-open", "after-open", "mid-write", "at-replace", "at-close"]
 
 
 class InjectedFault(OSError):
@@ -60,6 +60,11 @@ class Injector:
                 self.f, self.k = f, k
 
             def write(self, s):
+                if inj.fault == (self.k, 4):
+                    # buffered I/O: the data only reaches the disk when the file is flushed / closed - and THAT fails
+                    # (disk full, quota, file-size limit): half of it is written, then the error surfaces at close
+                    self.pending = getattr(self, "pending", "") + s
+                    return len(s)
                 if inj.fault == (self.k, 1):
                     raise inj.cls("after open")
                 if inj.fault == (self.k, 2):
@@ -72,6 +77,11 @@ class Injector:
                 return self
 
             def __exit__(self, *a):
+                if inj.fault == (self.k, 4) and a[0] is None:
+                    pend = getattr(self, "pending", "")
+                    self.f.write(pend[: len(pend) // 2])
+                    self.f.close()
+                    raise inj.cls("at close")
                 self.f.close()
                 return False
 
@@ -144,7 +154,7 @@ class C20(Prop):
         "(output existing or not), run through the real main() in a scratch directory. fault: a generated sync project "
         "(2-3 kinds, 1-2 target files per kind in pre-states missing/empty/absent/stale/agreeing) run once without fault "
         "to learn the sequence of file writes, then once per (write k, fault point i in before-open/after-open/"
-        "mid-write/at-replace) - every index, no sampling - plus a fault in the rendering step of every target. "
+        "mid-write/at-replace/at-close) - every index, no sampling - plus a fault in the rendering step of every target. "
         "Non-trivial = an invocation that touches at least one file or is rejected with files present; distinct by "
         "argv shape / (project, fault)."
     )
@@ -323,13 +333,13 @@ class C20(Prop):
             return res
         salt = sum(map(ord, json.dumps(cfg, sort_keys=True, default=repr))) % 3
         for k in range(len(log)):
-            for i in range(4):
+            for i in range(5):
                 root = tempfile.mkdtemp(prefix="c20f")
                 try:
                     projgen.materialise(cfg, root)
                     # the error class rotates over the fault positions (offset per case): an OSError, the
                     # ValueError a write raises for unencodable text, an interrupt
-                    cls = FAULT_CLASSES[(k * 4 + i + salt) % len(FAULT_CLASSES)]
+                    cls = FAULT_CLASSES[(k * 4 + i + salt) % len(FAULT_CLASSES)] if i < 4 else InjectedFault
                     with Injector(root, fault=(k, i), cls=cls) as inj:
                         oc = run_sync(cfg, root, c["via_cli"])
                     res["runs"].append({"fault": [k, i], "cls": cls.__name__, "outcome": oc, "after": projgen.snapshot(root)})
@@ -408,7 +418,7 @@ class C20(Prop):
             k, i = rrun["fault"]
             if i == "render":
                 continue  # rendering calls do not map 1:1 onto writes (up-to-date files are rendered, not written): predicate only
-            fault = [k, i]
+            fault = [k, min(i, 3)]  # (a failure at close is, for the model, a failure before the move: step 3 not done)
             op = {"op": "fs_targets", "files": files, "targets": targets, "fault": fault}
             impl = {"ok": sorted([ids.get(n, -1), rrun["after"].get(n)] for n in set(names) | set(rrun["after"]))}
             res.append(("fs", op, impl))
